@@ -62,10 +62,12 @@ def check (spec0):
     viol  = []
     mon   = {}
     worst = 0.0
+    margins = {}
     def judge (name, measured, allowed, msg, key = None):
         nonlocal worst
         mon [name] = mon.get (name, 0) + 1
         worst = max (worst, measured / allowed)
+        margins [name.split (':') [0]] = max (margins.get (name.split (':') [0], 0.0), measured / allowed)
         if not (measured <= allowed):
             viol.append (dict ( monitor = name, key = key or name, msg = msg
                               , measured = measured, allowed = allowed))
@@ -156,6 +158,6 @@ def check (spec0):
     sig = gen.signature (spec, m, extra = ['feeds' + ''.join (sorted (kinds)), 'valid%d' % ok])
     nontrivial = len (spec ['src']) > 1 or ('g' in kinds) or ('j' in kinds) or abs (c.imag) > 0
     return dict ( status = 'violation' if viol else 'held', sig = sig, nontrivial = bool (nontrivial)
-                , margin = worst, monitors = mon, violations = viol
+                , margin = worst, margins = margins, monitors = mon, violations = viol
                 , info = dict (cond = cond, n = len (I0), factor = spec ['factor']))
 # end def check
